@@ -8,6 +8,7 @@ import (
 
 	"github.com/johannesboyne/gofakes3"
 	"github.com/johannesboyne/gofakes3/internal/goskipiter"
+	"github.com/johannesboyne/gofakes3/internal/verifhook"
 )
 
 var (
@@ -257,11 +258,13 @@ func (db *Backend) PutObject(bucketName, objectName string, meta map[string]stri
 	if err != nil {
 		return result, err
 	}
+	verifhook.Gate("s3mem.PutObject.afterRead")
 
 	err = gofakes3.MergeMetadata(db, bucketName, objectName, meta)
 	if err != nil {
 		return result, err
 	}
+	verifhook.Gate("s3mem.PutObject.afterMerge")
 
 	db.lock.Lock()
 	defer db.lock.Unlock()
